@@ -46,11 +46,22 @@ PROPS = {
                                + gen.fam_gates(s, 4, gates=["cli.alloc", "car.sent.c2s.new", "srv.reject.emit"], faults=("cancel@park", "cancel")),
             "thorough": lambda s: sum((gen.fam_indep(s + i, 0) for i in range(8)), []) + gen.fam_shutdown(s, 0) + gen.fam_gates(s, 0, faults=("cancel",))},
     "C14": {"level": "model_checking", "snap": True, "hang": True,
-            "quick": lambda s: gen.fam_life(s, 3, policies=("eager", "slowcli")) + gen.fam_cancel(s, 3, policies=("lazy", "slowcli")) + gen.fam_indep(s, 3, policies=("random",)),
+            "quick": lambda s: gen.fam_life(s, 8, policies=("lazy", "slowcli"), causes=("close", "srvgone", "carfail", "stop"), fcs=("fc",))
+                               + gen.fam_life(s, 2, policies=("eager",), fcs=("nofc",))
+                               + gen.fam_cancel(s, 3, policies=("lazy", "slowcli")) + gen.fam_indep(s, 3, policies=("random",)),
             "thorough": lambda s: gen.fam_life(s, 0) + gen.fam_cancel(s, 0) + gen.fam_indep(s, 0) + gen.fam_gates(s, 4)},
     "C02": {"level": "model_checking", "also": ["C16_NoSuccessOnWrongCount"],
             "quick": lambda s: gen.fam_meta(s, 160) + gen.fam_data(s, 24),
             "thorough": lambda s: sum((gen.fam_meta(s + i, 400, gated=(i == 0)) for i in range(4)), []) + gen.fam_data(s, 200)},
+    "C16": {"level": "model_checking",
+            "quick": lambda s: gen.fam_shape(s),
+            "thorough": lambda s: gen.fam_shape(s) + gen.fam_hostile_srv(s) + gen.fam_hostile_cli(s)},
+    "C11": {"level": "model_checking", "hang": True,
+            "quick": lambda s: gen.fam_neg(s),
+            "thorough": lambda s: gen.fam_neg(s) + gen.fam_data(s, 120)},
+    "C09": {"level": "model_checking", "hang": True,
+            "quick": lambda s: gen.fam_hostile_srv(s) + gen.fam_hostile_cli(s),
+            "thorough": lambda s: gen.fam_hostile_srv(s) + gen.fam_hostile_cli(s)},
     "C10": {"level": "model_checking", "hang": True,
             "quick": lambda s: gen.fam_shutdown(s, 8),
             "thorough": lambda s: gen.fam_shutdown(s, 0)},
